@@ -85,16 +85,24 @@ pub fn compress_with(spec: &scen::CompressSpec, source: &Arc<Vec<u8>>, writer: u
     scen::quiet(|| {
         let _ = std::fs::remove_file("a.cba");
     });
+    // one CLI compression in six overwrites an existing, longer file with --force-create: the
+    // archive must still end at the end of its last stored chunk
+    let force = writer != 2 && gen::chance(1, 6);
+    if force {
+        let junk = vec![0xEEu8; source.len() * 2 + 4096 + gen::draw(5000) as usize];
+        scen::put_file("a.cba", &junk);
+        simkit::count("probe:compress-over-longer-file");
+    }
     let (wname, outcome, archive) = match writer {
         0 => {
             scen::put_file("src.bin", source);
             scen::set_stdin(None);
-            let r = scen::run(&scen::compress_args(spec, Some("src.bin"), "a.cba", false));
+            let r = scen::run(&scen::compress_args(spec, Some("src.bin"), "a.cba", force));
             ("cli-file", r.outcome, scen::get_file("a.cba").unwrap_or_default())
         }
         1 => {
             scen::set_stdin(Some(source.to_vec()));
-            let r = scen::run(&scen::compress_args(spec, None, "a.cba", false));
+            let r = scen::run(&scen::compress_args(spec, None, "a.cba", force));
             scen::set_stdin(None);
             ("cli-stdin", r.outcome, scen::get_file("a.cba").unwrap_or_default())
         }
